@@ -69,8 +69,18 @@ def judge(src, result, settings):
         col = f.get("col_offset")
 
         def bad(what):
-            problems.append({"what": what, "code": cname, "lineno": lineno, "col": col,
-                             "text": re.sub(r"0x[0-9a-f]+", "0x?", desc)[-600:]})
+            pb = {"what": what, "code": cname, "lineno": lineno, "col": col,
+                  "text": re.sub(r"0x[0-9a-f]+", "0x?", desc)[-600:]}
+            if what == "column-outside-line":
+                ln = lines[lineno - 1]
+                raw = ln.encode("utf-8")
+                pb["line_nonascii"] = any(ord(ch) > 127 for ch in ln)
+                try:
+                    raw[:col].decode("utf-8")
+                    pb["col_is_byte_offset"] = col <= len(raw)
+                except UnicodeDecodeError:
+                    pb["col_is_byte_offset"] = False
+            problems.append(pb)
 
         if cname == "internal_error":
             bad("internal_error")
@@ -299,6 +309,30 @@ def emit_cases(cases):
 
 
 # ---------------------------------------------------------------------------
+# column correspondence: what col_offset does the real parser + show_error report for a
+# name that follows a given string of characters?
+
+
+def column_cases(cases):
+    from pyanalyze.error_code import ErrorCode
+    from pyanalyze.test_name_check_visitor import ConfiguredNameCheckVisitor
+
+    out = []
+    kwargs = ConfiguredNameCheckVisitor.prepare_constructor_kwargs({})
+    for text in cases:
+        src = "(" + repr(text)[1:-1].join("''") + ", zz_name)\n" if False else "('" + text + "', zz_name)\n"
+        tree = ast.parse(src)
+        name = [n for n in ast.walk(tree) if isinstance(n, ast.Name)][0]
+        try:
+            v = ConfiguredNameCheckVisitor("<col>", src, tree, module=ast, **kwargs)
+            f = v.show_error(name, "message", ErrorCode.bad_star_import)
+            out.append((f or {}).get("col_offset"))
+        except Exception as ex:  # noqa
+            out.append({"other": f"{type(ex).__name__}: {ex}"[:200]})
+    return out
+
+
+# ---------------------------------------------------------------------------
 # dispatch correspondence
 
 
@@ -380,6 +414,7 @@ def main():
     for key, cond, fn in (
         ("values", req.get("value_pairs"), lambda: value_stream(req.get("value_seed", 0), req["value_pairs"], bool(req.get("value_matrix")))),
         ("emit", req.get("emit_cases"), lambda: emit_cases(req["emit_cases"])),
+        ("columns", req.get("column_cases"), lambda: column_cases(req["column_cases"])),
         ("dispatch", req.get("dispatch"), dispatch_cases),
     ):
         if not cond:
